@@ -120,7 +120,14 @@ class SetOrder:
                         self._leak(node, n, 'positional pairing with a set-ordered collection')
                 if base == 'next' and n.args and (self.kind(n.args[0], st) in ('set', 'useq')):
                     self.instances += 1
-                    self._leak(node, n, 'arbitrary element of a set')
+                    g0 = n.args[0]
+                    # next(x for x in s if x.key == k): a search by key (the spelled-out loop `for x in s: if ..: return x`
+                    # is the same thing and is not an order leak), not "some element"
+                    search = isinstance(g0, ast.GeneratorExp) and len(g0.generators) == 1 and any(
+                        isinstance(c, ast.Compare) and len(c.ops) == 1 and isinstance(c.ops[0], (ast.Eq, ast.Is))
+                        for c in g0.generators[0].ifs)
+                    if not search:
+                        self._leak(node, n, 'arbitrary element of a set')
                 if isinstance(n.func, ast.Attribute) and n.func.attr == 'pop' and self.kind(n.func.value, st) in ('set', 'useq'):
                     self.instances += 1
                     self._leak(node, n, 'arbitrary element of a set')
